@@ -12,7 +12,7 @@ MULTI = ['superman', 'basketball', 'starwars', 'passwordpassword', 'bluehouse', 
 DIGITS = ['1', '12', '123', '1234', '12345', '123456', '007', '00', '42', '69', '2580', '99', '8', '111111', '31337']
 YEARS = ['1999', '2000', '2012', '1984', '2023', '1975', '2001']
 SYMS = ['!', '!!', '@', '#', '$', '.', '_', '-', '!@#', '*', '?', ' ', '  ', '%$', '+', '=', '"', '""', "'", ',', ';', '\\', '!"', '`', '|', '~', '[', ']', '(', ')', '{}', '<>', '&', '^', '/', ':',
-        '\x7f', '\x9f', '\x80\x80']          # DEL and C1 controls: not among the characters the trainer rejects (< 0x20, U+0085, U+2028, U+2029)
+        '\x7f', '\x9f', '\x80\x80', '\ufeff', '\ufeff!']          # DEL and C1 controls: not among the characters the trainer rejects (< 0x20, U+0085, U+2028, U+2029)
 WALKS = ['1qaz', 'qwer', '1qaz2wsx', 'zaq1', '!qaz', 'qwert', '1q2w3e4r', 'asdf;', 'йцук1', '2wsx3edc']
 CONTEXT = ['#1', '<3', ';p', ':p', 'Mr.', 'No.1', '*0*', 'i<3', 'Dr.', 'St.', 'No.']
 NONBMP = ['😀', '🔑', '𝒜', '🐱']
